@@ -797,7 +797,7 @@ func run(c *core.Ctx) {
 			}
 			nvar := 2
 			if styleVar {
-				nvar = 3
+				nvar = 4
 			}
 			for variant := 0; variant < nvar; variant++ {
 				key, msg, out := CheckWrite(cs.Doc, variant)
